@@ -440,6 +440,33 @@ def empty_batch_scenarios(seed):
     return [scn("empty-batches", steps, seed=seed)]
 
 
+def orphan_scenarios(seed, quick):
+    """A subscription that outlives its topic keeps serving what it holds: deliveries outstanding when
+    the topic is deleted come back after their deadlines, queued messages stay, nacks work."""
+    out = []
+    for k in range(4 if quick else 12):
+        steps = [call(1, op="CreateTopic", name=T1), call(1, op="CreateSub", name=S1, topic=T1, ack=10 + 5 * (k % 2)),
+                 call(1, op="CreateSub", name=S2, topic=T1, ack=10),
+                 call(1, op="Publish", topic=T1, msgs=[{"p": "o%d-%d" % (k, j)} for j in range(4)]),
+                 call(2, op="Pull", sub=S1, max=2, ri=True), {"do": "advance", "ms": 1000 * (k % 4)},
+                 call(2, op="Pull", sub=S2, max=1, ri=True)]
+        if k % 2:
+            steps += [{"do": "sopen", "h": "s", "c": 5, "sub": S2, "max": 1}, {"do": "settle"}]
+        steps += [call(1, op="DeleteTopic", name=T1)]
+        if k % 3 == 1:
+            steps.append(call(1, op="CreateTopic", name=T1))
+        steps += [call(2, op="ModAck", sub=S1, acks=[{"d": 1}], secs=(0, 30, 5)[k % 3]),
+                  {"do": "advance", "ms": 9000}, call(3, op="Pull", sub=S1, max=10, ri=True),
+                  {"do": "advance", "ms": 7000}, call(3, op="Pull", sub=S1, max=10, ri=True), call(3, op="Pull", sub=S2, max=10, ri=True),
+                  {"do": "advance", "ms": 25000}, call(3, op="Pull", sub=S1, max=10, ri=True), call(3, op="Pull", sub=S2, max=10, ri=True),
+                  call(3, op="GetSub", name=S1)]
+        if k % 2:
+            steps.append({"do": "sabandon", "h": "s"})
+        steps.append({"do": "drain", "c": 9})
+        out.append(scn("orphan-%d" % k, steps, seed=seed * 100 + k, phase=(k * 29) % 100))
+    return out
+
+
 def ack_deadline_scenarios(seed, quick):
     """Subscriptions created with ack deadlines across the whole range (below the minimum, ordinary,
     at and beyond 600 s): a delivery is not handed out again 2 s before ITS deadline and is 2 s after."""
@@ -475,6 +502,11 @@ def stream_ctrl_scenarios(seed, quick):
         ("extend-then-ack", [dict(mods=[[{"d": 1}, 30], [{"d": 2}, 20]]), dict(acks=[{"d": 1}]), dict()]),
         ("ack-then-keepalive-then-extend", [dict(acks=[{"d": 1}]), dict(), dict(mods=[[{"d": 2}, 25]]), dict(), dict(acks=[{"d": 3}])]),
         ("stale+live", [dict(acks=[{"lit": "77"}, {"d": 2}], mods=[[{"lit": "78"}, 30], [{"d": 1}, 30]])]),
+        # one message that extends one delivery and gives another one back: the stream itself is a
+        # waiting consumer and must get the returned message again
+        ("extend+nack", [dict(mods=[[{"d": 1}, 30], [{"d": 2}, 0]])]),
+        ("nack+extend+ack", [dict(acks=[{"d": 3}], mods=[[{"d": 2}, 0], [{"d": 1}, 45]])]),
+        ("nack-all", [dict(mods=[[{"d": 1}, 0], [{"d": 2}, 0], [{"d": 3}, 0]])]),
     ]
     for k, (name, msgs) in enumerate(shapes):
         for cap in ((16, 1) if quick else (16, 1, 2)):
@@ -572,7 +604,8 @@ def plan_c04(prop, tier, seed, t0):
                 SubNames={S1, S2}, MaxOps=6, MaxNow=7)
     phases = tuple(range(0, 100, 7)) + (99, 1)
     return core_check(prop, tier, seed, t0, over, explore=[("data", 32, 1000)], phases=phases,
-                      extra_scenarios=lambda quick, sd: deadline_probe_scenarios(sd, quick) + ack_deadline_scenarios(sd, quick),
+                      extra_scenarios=lambda quick, sd: deadline_probe_scenarios(sd, quick) + ack_deadline_scenarios(sd, quick)
+                      + orphan_scenarios(sd, quick),
                       adv_extra=(0, 101, 1, 99), thorough={"mc": dict(MaxOps=7, MaxMsgs=3, MaxNow=8)})
 
 
@@ -636,7 +669,8 @@ def plan_c08(prop, tier, seed, t0):
                      {"do": "sopen", "h": "s", "c": 5, "sub": S2, "max": 100}, {"do": "settle"}, {"do": "sabandon", "h": "s"},
                      {"do": "drain", "c": 9}]
             out.append(scn("c08-keys-%d" % i, steps, seed=sd + i))
-        return out
+        # publishes queued behind a DeleteTopic in the topic's mailbox still get increasing ids
+        return out + inflight_topic_delete_scenarios(sd, quick)
     return core_check(prop, tier, seed, t0, over, explore=[("data", 64, 3000), ("mixed", 16, 1000), ("mt:pubrace", 300, 20000)], caps=(16, 1, 2),
                       extra_scenarios=extra, thorough={"mc": dict(MaxOps=8, MaxMsgs=5)}, turns=True)
 
@@ -648,8 +682,22 @@ def plan_c09(prop, tier, seed, t0):
     def extra(quick, sd):
         # the same payload classes through the HTTP push path
         import plan_push
+        # many topic incarnations and many messages per topic: the ids clients see stay unique across
+        # topics (an id is more than the concatenation of two counters)
+        churn = "projects/p1/topics/t4"
+        steps = [call(1, op="CreateTopic", name=T1), call(1, op="CreateSub", name=S1, topic=T1, ack=10),
+                 call(1, op="Publish", topic=T1, msgs=[{"p": "bulk:12"}])]
+        for j in range(22 if quick else 60):
+            steps += [call(2, op="CreateTopic", name=churn), call(2, op="Publish", topic=churn, msgs=[{"p": "c%d" % j}, {"p": "d%d" % j}]),
+                      call(2, op="DeleteTopic", name=churn)]
+            if j % 4 == 3:
+                steps.append(call(1, op="Publish", topic=T1, msgs=[{"p": "bulk:11"}]))
+        steps += [call(3, op="CreateTopic", name=T2), call(3, op="CreateSub", name=S2, topic=T2, ack=10),
+                  call(3, op="Publish", topic=T2, msgs=[{"p": "bulk:25"}]),
+                  call(4, op="Pull", sub=S1, max=1000, ri=True), call(4, op="Pull", sub=S2, max=1000, ri=True), {"do": "drain", "c": 9}]
+        many = scn("c09-many-topics", steps, seed=sd)
         return [s for s in plan_push.c14_scenarios([], sd, quick, call, scn) if s["id"] == "c14-payloads"] \
-            + inflight_topic_delete_scenarios(sd, quick)
+            + inflight_topic_delete_scenarios(sd, quick) + [many]
     return core_check(prop, tier, seed, t0, over, special=True, explore=[("mixed", 32, 1000)],
                       scen={"quick": 200, "thorough": 3000}, extra_scenarios=extra,
                       thorough={"mc": dict(MaxOps=8, MaxMsgs=4)})
@@ -674,7 +722,7 @@ def plan_c11(prop, tier, seed, t0):
     return core_check(prop, tier, seed, t0, over, explore=[("churn", 64, 3000), ("mt:churnrace", 300, 20000), ("mt:cdrace", 300, 20000)],
                       extra_scenarios=lambda quick, sd: cancel_scenarios(sd, kinds={"DeleteSub", "DeleteTopic", "CreateSub"}, quick=quick)
                       + inflight_delete_scenarios(sd, quick) + inflight_topic_delete_scenarios(sd, quick)
-                      + pinned_topic_scenarios(sd, quick),
+                      + pinned_topic_scenarios(sd, quick) + orphan_scenarios(sd, quick),
                       thorough={"mc": dict(MaxOps=7)}, turns=True)
 
 
@@ -711,6 +759,14 @@ def plan_c13(prop, tier, seed, t0):
                     steps.append({"do": "walk", "c": 1, "kind": "subs", "arg": "projects/p1", "size": size})
                     steps.append({"do": "walk", "c": 1, "kind": "topicsubs", "arg": "projects/p1/topics/t10", "size": size})
             if m >= 3:
+                # refused creates (the names exist) in between: what is created afterwards still comes last
+                for victim in (2, 3, m - 1):
+                    steps.append({"do": "call", "c": 1, "call": {"op": "CreateSub", "name": "projects/p1/subscriptions/s%d" % (victim + 10),
+                                                                "topic": "projects/p1/topics/t10", "ack": 10}})
+                    steps.append({"do": "call", "c": 1, "call": {"op": "CreateTopic", "name": "projects/p1/topics/t%d" % (victim + 10)}})
+                steps.append({"do": "call", "c": 1, "call": {"op": "CreateSub", "name": "projects/p1/subscriptions/s9",
+                                                            "topic": "projects/p1/topics/t10", "ack": 10}})
+                steps.append({"do": "call", "c": 1, "call": {"op": "CreateTopic", "name": "projects/p1/topics/t9"}})
                 steps.append({"do": "call", "c": 1, "call": {"op": "CreateTopic", "name": "projects/p1/topics/t%d" % (m // 2 + 10)}})
                 steps.append({"do": "call", "c": 1, "call": {"op": "CreateSub", "name": "projects/p1/subscriptions/s10",
                                                             "topic": "projects/p1/topics/t10", "ack": 10}})
@@ -722,6 +778,8 @@ def plan_c13(prop, tier, seed, t0):
                 proj["projects/p1/topics/t%d" % (k + 10)] = "p1"
                 proj["projects/p1/subscriptions/s%d" % (k + 10)] = "p1"
             proj["projects/p2/topics/t9"] = "p2"
+            proj["projects/p1/topics/t9"] = "p1"
+            proj["projects/p1/subscriptions/s9"] = "p1"
             out.append({"id": "c13-big-%d" % i, "cap": 16, "seed": seed + i, "phase": 0,
                         "meta": {"clock": "paused", "proj": proj, "src": "big"}, "steps": steps})
         return out
@@ -1426,7 +1484,8 @@ def c06_mc(work, quick, violations):
 
 def plan_c06(prop, tier, seed, t0):
     n = 30 if tier == "quick" else 600
-    return scenario_check(prop, tier, seed, t0, c06_scenarios(n, seed), mc=c06_mc,
+    # ... plus the stream control family: messages given back by a control message reach a waiting consumer
+    return scenario_check(prop, tier, seed, t0, c06_scenarios(n, seed) + stream_ctrl_scenarios(seed, tier == "quick"), mc=c06_mc,
                           explore=[("consumers", 64, 3000), ("data", 32, 1000)])
 
 
